@@ -223,8 +223,10 @@ class Engine:
         extra = ax[self.solver_axioms:]
         # counterexample cache: a model of an earlier query that also satisfies pc /\ c
         if self.model_cache:
-            full = z3.And(c, *self.run.pc, *extra) if (self.run.pc or extra) else c
-            for m in self.model_cache:
+            for m, n_ax in self.model_cache:
+                # a cached model satisfies the axioms that existed when it was found; the younger ones are checked too
+                later = ax[n_ax:]
+                full = z3.And(c, *self.run.pc, *later) if (self.run.pc or later) else c
                 try:
                     if z3.is_true(m.eval(full, model_completion=True)):
                         self.uni.stats['model_cache_hits'] = self.uni.stats.get('model_cache_hits', 0) + 1
@@ -236,7 +238,7 @@ class Engine:
         self.uni.stats['z3_checks'] += 1
         self.uni.stats['z3_time'] += time.time() - t
         if r == z3.sat:
-            self.model_cache.append(self.solver.model())
+            self.model_cache.append((self.solver.model(), len(ax)))
             if len(self.model_cache) > 6:
                 self.model_cache.pop(0)
             return True
@@ -255,6 +257,18 @@ class Engine:
             return False
         raise Inconclusive('z3 returned unknown on a feasibility query (%s)' % self.solver.reason_unknown())
 
+    def pc_unsat(self):
+        """is the current path condition (with every axiom) definitely unsatisfiable?  Then the path is infeasible and
+        contributes nothing; exploration may have entered it through a branch taken without a solver query."""
+        ax = self.uni.axioms
+        extra = ax[self.solver_axioms:]
+        r = self.solver.check(*extra) if extra else self.solver.check()
+        self.uni.stats['z3_checks'] += 1
+        if r == z3.unsat:
+            self.uni.stats['infeasible_paths_detected_late'] = self.uni.stats.get('infeasible_paths_detected_late', 0) + 1
+            return True
+        return False
+
     def decide(self, conds):
         """conds: mutually exclusive, jointly exhaustive options (python bool or
         z3 Bool).  Returns the index taken on this path."""
@@ -268,9 +282,9 @@ class Engine:
         else:
             feas = [i for i in live if self.feasible(conds[i])]
             if not feas:
-                if run.assumed or self.any_assumed:
+                if run.assumed or self.any_assumed or self.pc_unsat():
                     raise InfeasiblePath()
-                raise Inconclusive('no feasible branch (path condition unsatisfiable?)')
+                raise Inconclusive('no feasible branch although the path condition is satisfiable (options not exhaustive?)')
             k = feas[0]
             for j in feas[1:]:
                 run.alts.append(run.script[:run.pos] + [j])
@@ -1059,6 +1073,8 @@ class Engine:
                     check_escape(r.value, barrier)
                 summ.append(r)
             self.uni.memo[key] = summ
+            # the key holds z3 AST ids, which z3 recycles once a term is freed: keep the arguments alive with the entry
+            self.uni.memo.setdefault(('keepalive',), []).append(args)
         else:
             self.uni.stats['summary_hits'] += 1
         # events recorded inside the summary are replayed conditionally
@@ -1078,7 +1094,7 @@ class Engine:
                         self.run.pc.append(z3bool(p.cond()))
                         self.solver.add(z3bool(p.cond()))
                         raise PanicEx(p.panic.site, p.panic.msg)
-                if self.run.assumed or self.any_assumed:
+                if self.run.assumed or self.any_assumed or self.pc_unsat():
                     raise InfeasiblePath()
                 raise Inconclusive('panic summary inconsistent')
         if not rets:
@@ -1124,6 +1140,8 @@ class Engine:
 def _has_fp(t, memo):
     k = t.get_id()
     r = memo.get(k)
+    if r is not None and not isinstance(r, bool):
+        r = r[1]
     if r is None:
         stack = [t]
         seen = set()
@@ -1134,7 +1152,8 @@ def _has_fp(t, memo):
             if i in seen:
                 continue
             seen.add(i)
-            if memo.get(i) is True:
+            mi = memo.get(i)
+            if mi is not None and mi[1] is True:
                 r = True
                 break
             srt = x.sort()
@@ -1142,7 +1161,7 @@ def _has_fp(t, memo):
                 r = True
                 break
             stack.extend(x.children())
-        memo[k] = r
+        memo[k] = (t, r)     # the term is kept alive so that its id is not recycled
     return r
 
 
